@@ -16,7 +16,8 @@ BOUNDED = {
         unit=P + "properties.model_property:_process_properties / _add_if_no_conflict", where="openapi_python_client/parser/properties/model_property.py",
         statement="an accepted object schema has exactly the declared properties (incl. allOf members), pairwise distinct "
                   "attribute names, and a property is required iff some member requires it; otherwise a diagnostic",
-        bound="1-2 properties over 7 names x required subsets; 5 allOf shapes x 4x5 names",
+        bound="1-2 properties over 7 names x required subsets; all ordered triples (thorough: quadruples) of 7 names whose "
+              "snake-case forms and raw-name fallbacks collide; 5 allOf shapes x 4x5 names; re-declaration shape",
         known={"C15-K3-required-on-inherited-property-ignored":
                lambda case, why: case.get("variant") == "ref-parent-prop-required-by-child" and "required should be True" in why}),
     "enum_values": dict(
